@@ -78,7 +78,9 @@ impl<Wr: Write> HtmlSerializer<Wr> {
     pub fn new(writer: Wr, opts: SerializeOpts) -> Self {
         let html_name = match opts.traversal_scope {
             TraversalScope::IncludeNode | TraversalScope::ChildrenOnly(None) => None,
-            TraversalScope::ChildrenOnly(Some(ref n)) => Some(tagname(n)),
+            // Only HTML elements have the special text serialization rules.
+            TraversalScope::ChildrenOnly(Some(ref n)) if n.ns == ns!(html) => Some(tagname(n)),
+            TraversalScope::ChildrenOnly(Some(_)) => None,
         };
         HtmlSerializer {
             writer,
